@@ -2570,6 +2570,129 @@ fn random_eval_case(rng: &mut Rng, pool: &[(&'static str, Value, Option<bool>)])
     (g.expr(n), env)
 }
 
+
+// ------------------------------------------------------------------ maps subscripted / probed with computed keys
+
+fn vmap_k(es: Vec<(tera::value::Key<'static>, Value)>) -> Value {
+    let mut m = tera::Map::new();
+    for (k, v) in es {
+        m.insert(k, v);
+    }
+    Value::from(m)
+}
+
+/// the maps: literals (integer / string / bool keys; folded and not folded) and context maps
+/// whose integer keys are stored in every width
+fn key_maps() -> Vec<(&'static str, Sx, bool)> {
+    use MKey as K;
+    let e = |k: MKey, v: Sx| (Some(k), v);
+    vec![
+        ("lit-int", Sx::Map(vec![e(K::Int(1), sstr("one")), e(K::Int(2), sstr("two")), e(K::Int(3), sstr("three")), e(K::Int(4), sstr("four"))]), false),
+        ("lit-str", Sx::Map(vec![e(K::Str("ab".into()), cint(1)), e(K::Str("b".into()), cint(2)), e(K::Str("2".into()), cint(3))]), false),
+        ("lit-bool", Sx::Map(vec![e(K::Bool(true), sstr("t")), e(K::Bool(false), sstr("f")), e(K::Int(1), sstr("i")), e(K::Int(0), sstr("z"))]), false),
+        // not folded by the parser: a variable value and a spread
+        ("lit-dyn", Sx::Map(vec![e(K::Int(1), var("w")), e(K::Int(2), sstr("two")), (None, var("ms")), e(K::Int(3), cint(3))]), false),
+        ("ctx-u64", var("mu"), true),
+        ("ctx-i64", var("mi"), true),
+        ("ctx-128", var("mw"), true),
+        ("ctx-str", var("ms"), true),
+    ]
+}
+
+fn key_env() -> Vec<(String, Value)> {
+    use tera::value::Key;
+    let s = |x: &str| Value::from(x);
+    vec![
+        ("mu", vmap_k(vec![(Key::U64(1), s("un")), (Key::U64(2), s("deux")), (Key::U64(3), s("trois")), (Key::U64(4), s("quatre"))])),
+        ("mi", vmap_k(vec![(Key::I64(-1), s("m1")), (Key::I64(1), s("p1")), (Key::I64(2), s("p2")), (Key::I64(4), s("p4"))])),
+        ("mw", vmap_k(vec![(Key::I128(1), s("w1")), (Key::U128(2), s("w2")), (Key::I128(-1), s("wm1")), (Key::U128(9), s("w9"))])),
+        ("ms", vmap(vec![("ab", vi(10)), ("b", vi(20))])),
+        ("ku64", Value::from(1u64)),
+        ("ki64", Value::from(1i64)),
+        ("ki128", Value::from(1i128)),
+        ("ku128", Value::from(2u128)),
+        ("kneg", Value::from(-1i64)),
+        ("n", Value::from(2i64)),
+        ("zero", Value::from(0i64)),
+        ("xs", varr(vec![vi(5), vi(6)])),
+        ("t", Value::from(true)),
+        ("sa", s("a")),
+        ("w", s("wv")),
+    ]
+    .into_iter()
+    .map(|(k, v)| (k.to_string(), v))
+    .collect()
+}
+
+/// the keys: literals, variables of every integer width, arithmetic / concatenation / filter
+/// results, ternaries and `or` defaults
+fn key_exprs() -> Vec<(&'static str, Sx)> {
+    use Bop::*;
+    vec![
+        ("1", cint(1)),
+        ("2", cint(2)),
+        ("9", cint(9)),
+        ("'ab'", sstr("ab")),
+        ("'zz'", sstr("zz")),
+        ("true", Sx::Const(Const::Bool(true))),
+        ("ku64", var("ku64")),
+        ("ki64", var("ki64")),
+        ("ki128", var("ki128")),
+        ("ku128", var("ku128")),
+        ("kneg", var("kneg")),
+        ("0 + 1", bin(Plus, cint(0), cint(1))),
+        ("zero + 1", bin(Plus, var("zero"), cint(1))),
+        ("n * 1", bin(Mul, var("n"), cint(1))),
+        ("3 - 2", bin(Minus, cint(3), cint(2))),
+        ("4 // 2", bin(FloorDiv, cint(4), cint(2))),
+        ("7 % 4", bin(Mod, cint(7), cint(4))),
+        ("2 * n", bin(Mul, cint(2), var("n"))),
+        ("0 - 1", bin(Minus, cint(0), cint(1))),
+        ("-1", un(Unop::Minus, cint(1))),
+        ("5 + 4", bin(Plus, cint(5), cint(4))),
+        ("'a' ~ 'b'", bin(Concat, sstr("a"), sstr("b"))),
+        ("sa ~ 'b'", bin(Concat, var("sa"), sstr("b"))),
+        ("xs | length", filt(var("xs"), "length")),
+        ("1 if t else 2", tern(var("t"), cint(1), cint(2))),
+        ("zero + 1 if t else 2", tern(var("t"), bin(Plus, var("zero"), cint(1)), cint(2))),
+        ("nope or 1", bin(Or, var("nope"), cint(1))),
+        ("nope or 'ab'", bin(Or, var("nope"), sstr("ab"))),
+        ("nope | default(value=2)", Sx::Filter(bx(var("nope")), "default".into(), vec![("value".into(), cint(2))])),
+    ]
+}
+
+fn emit_key_cases(sink: &mut Sink, meta: &mut Meta, tera: &Tera, rng: &mut Rng, thorough: bool) -> usize {
+    let env = key_env();
+    let before = sink.count;
+    let arr3 = arr(vec![(false, cint(10)), (false, cint(20)), (false, cint(30))]);
+    for (kn, k) in key_exprs() {
+        for (mn, m, is_var) in key_maps() {
+            let mut forms: Vec<(&str, Sx)> = vec![
+                ("M[K]", item(m.clone(), k.clone())),
+                ("K in M", bin(Bop::In, k.clone(), m.clone())),
+                ("K not in M", Sx::NotIn(bx(k.clone()), bx(m.clone()))),
+            ];
+            if is_var {
+                forms.push(("M?[K]", item_o(m.clone(), k.clone(), true)));
+            }
+            if thorough {
+                forms.push(("M[K] or 'd'", bin(Bop::Or, item(m.clone(), k.clone()), sstr("d"))));
+                forms.push(("M[K] ~ '!' if K in M else 'no'", tern(bin(Bop::In, k.clone(), m.clone()), bin(Bop::Concat, item(m.clone(), k.clone()), sstr("!")), sstr("no"))));
+            }
+            for (fname, e) in forms {
+                let tag = format!("K:{fname} @ {mn} @ {kn}");
+                emit_eval(sink, meta, tera, &e, &env, false, &tag, rng);
+            }
+        }
+        // arrays indexed by computed integers
+        for (an, a) in [("[10,20,30]", arr3.clone()), ("xs", var("xs"))] {
+            let tag = format!("K:A[K] @ {an} @ {kn}");
+            emit_eval(sink, meta, tera, &item(a.clone(), k.clone()), &env, false, &tag, rng);
+        }
+    }
+    sink.count - before
+}
+
 /// oracles on the engine alone: short-circuit of and / or / ternary, one level of undefined
 fn eval_oracles(tera: &Tera, meta: &mut Meta) {
     let check = |meta: &mut Meta, what: &str, text: &str, env: &[(String, Value)], print: bool, ok: &dyn Fn(&Outcome<Value>) -> bool| {
@@ -2780,6 +2903,9 @@ fn main() {
             }
         }
     }
+    // (K) maps / arrays subscripted and probed with computed keys
+    let eval_key_cases = emit_key_cases(&mut eval, &mut meta, &tera, &mut rng, thorough);
+    meta.extra.insert("eval_key_cases".into(), json!(eval_key_cases));
     let eval_systematic = eval.count;
     // (R) random
     let vpool = value_pool();
